@@ -8,9 +8,13 @@
   none skipped, `lru = reverse mru`, exact size hints, exhausted iterators stay exhausted, no sentinel is ever read,
   clones advance independently (an iterator is a value), writes through `iter_mut` keep keys and order.
   The per-list iterators of TwoQueueCache / AdaptiveCache are these iterators on the respective list.
+  `ptr_cursors_*`: the same cursors on real addresses (stepping through the heap by `.next` / `.prev`, as the Rust
+  iterators do) are simulated by the position model on every well-formed chain: the nodes they dereference are exactly
+  the entries at the model's positions — never a sentinel, never a node outside the chain.
 -/
 import Caches.Lemmas.Iter
 import Caches.Lemmas.Assoc
+import Caches.Lemmas.PtrIter
 set_option linter.unusedSectionVars false
 set_option linter.unusedVariables false
 namespace C14
@@ -116,6 +120,24 @@ theorem iterMut_writes_keep_order [DecidableEq κ] (items : AL κ Nat) (wbase : 
     cases o with
     | none => simp only [writeYields]; exact ih items (i + 1)
     | some e => simp only [writeYields]; rw [ih, keys_setVal]
+
+/-! ## the cursors on addresses -/
+open M.Chain
+
+/-- from a well-formed chain, for every script of `ptr`-side / `end`-side steps (any interleaving, any length, also
+    past exhaustion): the pointer cursors yield exactly the nodes at the positions the model reads, and every node they
+    dereference is an entry of the chain -/
+theorem ptr_cursors_faithful_and_safe (h : Heap) (head tail : Nat) (l : List Nat) (hw : WF h head tail l)
+    (s : List Bool) :
+    PIter.run h s (PIter.start h head tail l.length) =
+      (Iter.posRun s { len := l.length, ptr := 1, endp := l.length }).map (fun o => o.bind (fun i => l[i]?)) ∧
+    ∀ a, some a ∈ PIter.run h s (PIter.start h head tail l.length) → a ∈ l := by
+  obtain ⟨hs, hwin⟩ := sim_start h head tail l hw
+  exact sim_run h head tail l hw s _ _ hwin hs
+
+/-- a forward-only run reads positions 0, 1, 2, … and then stays exhausted -/
+example : Iter.posRun [false, false, true, false, false] { len := 3, ptr := 1, endp := 3 } =
+    [some 0, some 1, some 2, none, none] := by decide
 
 /-- non-vacuity -/
 example : popEnds [(1, 10), (2, 20), (3, 30)] [false, true, false, false] =
